@@ -159,6 +159,12 @@ def _ev_lookup(i):
     return _EVENTS[i]
 
 
+# the two executables handed to ddSMT differ in content: which of them a
+# process runs is decided by what it executes, not by what the file is called
+MAIN_TEXT = '#!/bin/sh\n# the command under test\nexit 0\n'
+CC_TEXT = '#!/bin/sh\n# the cross-check command\nexit 0\n'
+
+
 class SimCounter:
     """The node-id counter: a ``multiprocessing.Value('i')`` in shared memory,
     used by every process (main parses and re-duplicates, workers substitute).
@@ -498,6 +504,9 @@ class SimProc:
         self.args = list(args)
         self._cap_out = stdout == _real_subprocess.PIPE
         self._cap_err = stderr == _real_subprocess.PIPE
+        # text mode as in subprocess: str instead of bytes, universal newlines
+        self._text = bool(kw.get('text') or kw.get('universal_newlines')
+                          or kw.get('encoding') or kw.get('errors'))
         self.pid = S.new_vpid()
         self.returncode = None
         self.t0 = S.clock
@@ -622,8 +631,14 @@ class SimProc:
             # streams that are not pipes are not captured (None), as in
             # subprocess.Popen.communicate
             if self.killed and not self.exited:
-                return (b'' if self._cap_out else None,
-                        b'' if self._cap_err else None)
+                e = '' if self._text else b''
+                return (e if self._cap_out else None,
+                        e if self._cap_err else None)
+            if self._text:
+                def tr(x):
+                    return x.replace('\r\n', '\n').replace('\r', '\n')
+                return (tr(self._out) if self._cap_out else None,
+                        tr(self._err) if self._cap_err else None)
             return (self._out.encode() if self._cap_out else None,
                     self._err.encode() if self._cap_err else None)
         CTX.rec.on_done(self, True)
